@@ -208,4 +208,17 @@ Proof.
   - inversion H; subst. now rewrite Hu.
   - apply IH in H. now rewrite H.
 Qed.
+
+(* a predicate on the state that every delivery and the unwinding keep is kept by the whole run *)
+Theorem flush_invariant (P : St -> Prop) :
+  (forall e st, P st -> P (snd (fst (run e st)))) -> (forall q st, P st -> P (unwind q st)) ->
+  forall n q st acc tr st' oc, flush n q st acc = Some (tr, st', oc) -> P st -> P st'.
+Proof.
+  intros Hr Hu. induction n as [|n IH]; intros q st acc tr st' oc H HP; [discriminate|].
+  cbn [flush] in H. unfold step in H. destruct (rev q) as [|e r]; [inversion H; subst; exact HP|].
+  specialize (Hr e st HP). destruct (run e st) as [[sent st1] ab]. cbn [fst snd] in Hr.
+  destruct ab.
+  - inversion H; subst. now apply Hu.
+  - eapply IH; eauto.
+Qed.
 End Loop.
